@@ -22,6 +22,27 @@ func init() {
 		doc := genObject(r, ka[0], ka[1])
 		g, v := resid.ParseGroupVersion(ka[1])
 		spec := types.FieldSpec{Path: pick(r, fsPaths), CreateIfNotPresent: r.Intn(2) == 0}
+		if r.Intn(6) == 0 {
+			// a path that crosses a sequence whose elements are sequences themselves (a grid), or a list mixing maps, lists
+			// and scalars: the traversal fans out through every level
+			cell := func(v string) interface{} {
+				return []interface{}{"m", 0, []interface{}{[]interface{}{"image", wS("!!str", v)}, []interface{}{"name", wS("!!str", "c"+v)}}}
+			}
+			row := func(vs ...string) interface{} {
+				var is []interface{}
+				for _, v := range vs {
+					is = append(is, cell(v))
+				}
+				return []interface{}{"q", 0, is}
+			}
+			grid := []interface{}{"q", 0, []interface{}{row("a", "b"), row("c"), []interface{}{"q", 0, []interface{}{}}}}
+			mixed := []interface{}{"q", 0, []interface{}{cell("m"), row("n"), wS("!!null", "null")}}
+			if sp := wGet(doc, "spec"); sp != nil {
+				wSet(sp, "grid", grid)
+				wSet(sp, "mixed", mixed)
+				spec.Path = pick(r, []string{"spec/grid/image", "spec/grid[]/image", "spec/mixed/image", "spec/grid/name", "spec/grid[]/fresh"})
+			}
+		}
 		if r.Intn(3) == 0 {
 			// an INTERMEDIATE element of the path that exists but is null (`metadata:` with nothing under it)
 			segs := strings.Split(strings.Trim(spec.Path, "/"), "/")
